@@ -164,8 +164,27 @@ class C11(PropBase):
         # ... and one whose name is also a builtin's: the caller's module binding shadows it, as in Python
         world["modules"][0]["decls"].append({"d": "dataclass", "n": "Warning", "fields": [{"n": "a", "t": {"k": "int"}}], "flags": {}})
         world["modules"][1]["decls"].append({"d": "dataclass", "n": "Warning", "fields": [{"n": "a", "t": {"k": "str"}}, {"n": "b", "t": {"k": "int"}, "default": 0}], "flags": {}})
+        # ... and one named like a global of the library's own modules (the TypeVar T of its api modules)
+        world["modules"][0]["decls"].append({"d": "dataclass", "n": "T", "fields": [{"n": "a", "t": {"k": "int"}}], "flags": {}})
+        world["modules"][1]["decls"].append({"d": "dataclass", "n": "T", "fields": [{"n": "a", "t": {"k": "str"}}, {"n": "b", "t": {"k": "int"}, "default": 0}], "flags": {}})
+        # a class the second module merely imports: a ForwardRef naming the importing module is as good as one naming the defining module
+        world["modules"][0]["decls"].append({"d": "dataclass", "n": "VwOnly0", "fields": [{"n": "a", "t": {"k": "int"}}], "flags": {}})
+        world["modules"][1]["decls"].append({"d": "raw", "n": "VwOnly0", "src": f"from {mods[0]} import VwOnly0\n"})
+        # one name that is bytes-like in one module (carried verbatim by the top-level decode) and a class in the other
+        world["modules"][0]["decls"].append({"d": "raw", "n": "VwBlob", "src": "VwBlob = typing.NewType('VwBlob', bytes)\n"})
+        world["modules"][1]["decls"].append({"d": "dataclass", "n": "VwBlob", "fields": [{"n": "a", "t": {"k": "str"}}], "flags": {}})
         # a class kept on a namespace class (its qualified name has two parts below the module)
         world["modules"][0]["decls"].append({"d": "raw", "n": "VwCanvas", "src": "class VwCanvas:\n    @dataclasses.dataclass\n    class VwPoint:\n        a: int\n        b: int = 0\n"})
+        # the second module knows the first under a name that is also a loaded top-level module's
+        # (`from pkg import types`): a qualified reference written there means what the module means by it
+        world["modules"][1]["decls"].append({"d": "raw", "n": "types", "src": f"import {mods[0]} as types\n"})
+        world["modules"][1]["decls"].append({"d": "raw", "n": "VwShadowAlias", "src": "VwShadowAlias = typing.TypeAliasType('VwShadowAlias', 'types.VwSame')\n"})
+        world["modules"][1]["decls"].append({"d": "raw", "n": "VwShadowInit", "src": (
+            "class VwShadowInit:\n    def __init__(self, k: 'types.VwSame', z: int = 0):\n        self.k = k\n        self.z = z\n"
+            "    def __eq__(self, o):\n        return type(o) is type(self) and (o.k, o.z) == (self.k, self.z)\n    __hash__ = None\n")})
+        world["modules"][0]["decls"].append({"d": "raw", "n": "VwPlainInit", "src": (
+            "class VwPlainInit:\n    def __init__(self, k: VwSame, z: int = 0):\n        self.k = k\n        self.z = z\n"
+            "    def __eq__(self, o):\n        return type(o) is type(self) and (o.k, o.z) == (self.k, self.z)\n    __hash__ = None\n")})
         # a relay module that binds none of the names: references issued "through" it must still be
         # resolved against the module further up the stack that does
         world["modules"].append({"name": "vwr", "future": False, "decls": []})
@@ -227,7 +246,12 @@ class C11(PropBase):
                 # bare reference to the twice-defined name
                 mod = rng.choice(mods)
                 x = {"$dict": [["a", 5]]} if rng.random() < 0.7 else {"$dict": [["a", "q"], ["b", 2]]}
-                step = {"op": "bare", "name": rng.choice(["VwSame", "VwSame", "Warning"]), "mod": mod, "x": x, "dir": rng.choice(["unmarshal", "unmarshal", "build", "graph"])}
+                step = {"op": "bare", "name": rng.choice(["VwSame", "VwSame", "Warning", "T"]), "mod": mod, "x": x, "dir": rng.choice(["unmarshal", "unmarshal", "build", "graph"])}
+                if rng.random() < 0.12:
+                    # the top-level decode, given the name: whether the payload is carried verbatim is the issuing module's answer
+                    step.update(name="VwBlob", dir="decode", x={"$b": (b'"abc"' if mod == mods[0] else b'{"a": "q"}').hex()})
+                    steps.append(step)
+                    continue
                 if "stack" in sw and rng.random() < 0.4:
                     step["depth"] = rng.randint(1, 40)
                 if rng.random() < 0.4:
@@ -247,6 +271,31 @@ class C11(PropBase):
                     step["shadowed"] = True  # issued by a function whose locals bind the same names to something else
                     step.pop("via", None)
                     step.pop("depth", None)
+                steps.append(step)
+                continue
+            if r < 0.38:
+                # the qualified reference whose head is the module's own name for the other module
+                pos = rng.choice(["root", "list", "dict", "tuple", "union"])
+                direction = rng.choice(["unmarshal", "unmarshal", "marshal", "codec"])
+                via_init = rng.random() < 0.35
+                if via_init:
+                    tb, tw = {"k": "ref", "m": mods[0], "n": "VwPlainInit"}, {"k": "ref", "m": mods[1], "n": "VwShadowInit"}
+                    xw = {"$dict": [["k", {"$dict": [["a", "5"]]}], ["z", 1]]}
+                    step = {"op": "transparent", "pos": "root", "dir": "unmarshal", "mod": mods[1], "x": xw, "chain": ["shadowed-module-name-in-signature"],
+                            "t_base": tb, "t_wrapped": tw, "cmp": "kz"}
+                elif rng.random() < 0.4:
+                    tb = at_position(pos, {"k": "ref", "m": mods[0], "n": "VwOnly0"})
+                    tw = at_position(pos, {"k": "fref", "s": "VwOnly0", "m": mods[1]})
+                    x = wire_at(pos, {"$dict": [["a", "5"]]}) if direction == "unmarshal" else value_at(pos, {"$obj": f"{mods[0]}.VwOnly0", "f": {"a": 5}})
+                    step = {"op": "transparent", "pos": pos, "dir": direction, "mod": rng.choice(mods), "x": x, "chain": ["fref-to-importing-module"], "t_base": tb, "t_wrapped": tw}
+                else:
+                    tb = at_position(pos, {"k": "ref", "m": mods[0], "n": "VwSame"})
+                    tw = at_position(pos, {"k": "raw", "src": "VwShadowAlias"})
+                    if direction == "unmarshal":
+                        x = wire_at(pos, {"$dict": [["a", rng.choice([5, "5"])]]})
+                    else:
+                        x = value_at(pos, {"$obj": f"{mods[0]}.VwSame", "f": {"a": 5}})
+                    step = {"op": "transparent", "pos": pos, "dir": direction, "mod": mods[1], "x": x, "chain": ["shadowed-module-name"], "t_base": tb, "t_wrapped": tw}
                 steps.append(step)
                 continue
             c = rng.choice(cases)
@@ -326,7 +375,9 @@ class C11(PropBase):
 
             if step.get("target"):
                 name = f"{step['target']}.{name}" if step["spelling"] == "qualified" else typing.ForwardRef(name, module=step["target"])
-            if step["dir"] == "unmarshal":
+            if step["dir"] == "decode":
+                out = issue(typelib.decode, name, sess.V(step["x"]))
+            elif step["dir"] == "unmarshal":
                 out = issue(typelib.unmarshal, name, sess.V(step["x"]))
             elif step["dir"] == "build":
                 out = issue(typelib.marshaller, name)
@@ -391,6 +442,14 @@ class C11(PropBase):
     def check(self, sess, i, step, out):
         if step["op"] == "bare":
             want = sess.world.obj(step.get("target") or step["mod"], step["name"])
+            if step["dir"] == "decode":
+                import typelib
+
+                ref = sess.guarded(sess.call, step, typelib.decode, want, sess.V(step["x"]))
+                if ref.ok != out.ok or (ref.ok and not model.same(ref.value, out.value)):
+                    sess.violation("bare-reference-resolved-elsewhere", i, {"name": step["name"], "issued_from": step["mod"], "dir": "decode", "by_name": repr(out)[:120],
+                                                                           "by_object": repr(ref)[:120]}, sig="bare-reference:decode")
+                return
             other = [m for m in sess.world.modules if m != step["mod"]]
             first_other = sess.bare_first.get(step["name"]) != step["mod"]
             got_cls = None
@@ -421,13 +480,18 @@ class C11(PropBase):
 def _sig(step, ob, ow) -> str:
     chain, pos = step["chain"], step["pos"]
     kind = "raise-vs-ok" if ob.ok != ow.ok else "value"
-    if chain[-1] in ("sref", "fref") and pos not in ("root", "field") and ob.ok and not ow.ok:
+    if chain[-1] == "sref" and pos not in ("root", "field") and ob.ok and not ow.ok:
         # a reference written inside a subscripted generic that is passed directly (list['X'])
         return "nested-reference-in-generic-not-resolved"
     return f"not-transparent:{'+'.join(chain)}:{pos}:{step['dir']}:{kind}"
 
 
 def _same_modulo_holder(a, b, step) -> bool:
+    if step.get("cmp") == "kz":
+        try:
+            return model.same(a.k, b.k) and a.z == b.z
+        except AttributeError:
+            return False
     if step["pos"] == "field" and step["dir"] in ("unmarshal", "codec"):
         # two holder classes: compare their fields
         try:
